@@ -213,6 +213,11 @@ def gen_case(seed, tier, index=0):
             steps.append(st)
         elif k == "annotate":
             names = rng.sample(ann_files, min(len(ann_files), rng.randint(1, 3)))
+            file_links = [l["path"] for l in symlinks if l["path"] in ("src/link_file.py", "docs/rel_link.py")]
+            if file_links and rng.chance(0.3):
+                # a symlink the user names explicitly counts as named (the tool writes through it or next to IT);
+                # nothing next to its target may appear
+                names.append(rng.pick(file_links))
             opts = rng.pick([[], ["--fallback-dot-license"], ["--force-dot-license"], ["--skip-unrecognised"], ["--style", "python"],
                              ["--multi-line"], ["--contributor", "Bob"]])
             argv, cwd = elsewhere(["annotate", "-c", rng.pick(G.HOLDERS), "-l", rng.pick(G.VALID)] + opts, names)
@@ -358,6 +363,10 @@ def oracle(case, results):
                     n = posixpath.normpath(posixpath.join(cwd, n))
                 if n in tree or n in links:
                     allowed |= {n, n + ".license"}
+                    for l in world.get("symlinks", []):
+                        if l["path"] == n:
+                            t = l["target"]
+                            allowed.add(t if t.startswith("@S/") else posixpath.normpath(posixpath.join(posixpath.dirname(n), t)))
                 elif recursive:
                     for f in _covered_model(tree, links, ignored, n):
                         allowed |= {f, f + ".license"}
@@ -371,6 +380,8 @@ def oracle(case, results):
             if label in via_link and cmd == "annotate":
                 vs.append({"sig": "C15/annotate/wrote-through-symlinked-dot-license",
                            "detail": f"{label}: {d.get('before')} -> {d.get('after')} argv={argv}"})
+                continue
+            if label in allowed:
                 continue
             if label.startswith("@S/"):
                 vs.append({"sig": f"C15/{cmd}/sentinel-changed", "detail": f"{label}: {d.get('before')} -> {d.get('after')} argv={argv}"})
